@@ -65,7 +65,7 @@ var fsMutators = map[string]bool{
 // (of the repository state, which no call in the verified functions changes before they are used).
 var pureMethods = map[string]bool{
 	"github.com/go-git/go-git/v5.(*Repository).TagObject": true, "github.com/go-git/go-git/v5.(Status).IsClean": true,
-	"github.com/go-git/go-git/v5.(Status).String": true,
+	"github.com/go-git/go-git/v5.(Status).String":            true,
 	"github.com/go-git/go-git/v5/plumbing.(*Reference).Hash": true, "github.com/go-git/go-git/v5/plumbing.(*Reference).Name": true,
 	"github.com/go-git/go-git/v5/plumbing.(ReferenceName).Short": true, "github.com/go-git/go-git/v5/plumbing.(ReferenceName).String": true,
 	"github.com/go-git/go-git/v5/plumbing.(Hash).String": true, "github.com/go-git/go-git/v5/plumbing.(Hash).IsZero": true,
